@@ -341,4 +341,51 @@ func c16CollectMaps(a jlib.ASTNode, out *[]*jlib.RuleASTNodes) {
 	}
 }
 
-func init() { ZZHarnesses["ZZC16Cases"] = ZZC16Cases }
+// ZZC16Keys: the key of a property node is the decoded key text, and IsKeyShortcut tells how the key
+// was written (@name without quotes), not what its text looks like: quoted keys that spell a type
+// name are ordinary keys.
+func ZZC16Keys() {
+	keys := []string{"@id", "@type", "@a-b_1", "@", "mail@host", "name", "@k"}
+	k := keys[v.Choose(0, len(keys)-1)]
+	pos := v.Choose(0, 2) // the only key, before a shortcut key, after one
+	text := "{\n"
+	if pos == 2 {
+		text += "  @k: 2,\n"
+	}
+	text += "  \"" + k + "\": 1"
+	if pos == 1 {
+		text += ",\n  @k: 2"
+	}
+	text += "\n}"
+	v.Observe("schema", text)
+	s := jschema.New("s", text)
+	v.Assert(s.AddType("@k", jschema.New("@k", `"kk"`)) == nil, "C16/addtype-failed")
+	ast, err := s.GetAST()
+	v.Assert(err == nil, "C16/getast-error")
+	if err != nil {
+		return
+	}
+	want := 1
+	if pos > 0 {
+		want = 2
+	}
+	v.Assert(len(ast.Children) == want, "C16/child-count")
+	if len(ast.Children) != want {
+		return
+	}
+	for i, c := range ast.Children {
+		shortcut := (pos == 1 && i == 1) || (pos == 2 && i == 0)
+		v.Assert(c.IsKeyShortcut == shortcut, "C16/key-shortcut-flag")
+		if shortcut {
+			v.Assert(c.Key == "@k", "C16/key-text")
+		} else {
+			v.Assert(c.Key == k, "C16/key-text")
+		}
+	}
+	v.Reach("C16/keys")
+}
+
+func init() {
+	ZZHarnesses["ZZC16Cases"] = ZZC16Cases
+	ZZHarnesses["ZZC16Keys"] = ZZC16Keys
+}
